@@ -251,18 +251,24 @@ def check(r):
         "absent time -> None and the simulated-measurement statements are checked on the implementation "
         "(and None-at-absent-epoch is enforced while tracing), not proved for arbitrary data frames",
     ]
-    r.generate(['Util', 'Transform', 'ErrState'])
-    r.prove('Props/C06.v')
+    # the numerical statements do not depend on Gen/ErrState.v: they run whatever happens to the translator / proofs
+    try:
+        if r.generate(['Util', 'Transform', 'ErrState']):
+            r.prove('Props/C06.v')
+            if r.tier == 'thorough':
+                r.hygiene('Props/C06.v')
+                r.coqchk('Props/C06.v')
+    except Exception as ex:
+        r.broken('harness', 'translator/proof stage', repr(ex))
     n, nsim = (140, 20) if r.tier == 'quick' else (4200, 400)
     fails = numeric_statements(r, n, nsim)
     r.coverage['numeric_support'] = dict(cases=n, sim=nsim, failures=len(fails))
     for what, rep in fails[:5]:
         r.violation(what, rep)
-    if r.tier == 'thorough':
-        r.hygiene()
 
 
 def falsify(r):
+    """Independent of the translator and of Coq: a seeded search on the implementation only."""
     fails = numeric_statements(r, 1400, 100, seed_shift=606)
     for what, rep in fails[:5]:
         r.violation(what, rep)
